@@ -65,7 +65,10 @@ SEED_DOCS.append({"openapi": "3.0.3", "info": {"title": "t", "version": "1"},
 def _is_known(exc) -> bool:
     site = sut.exc_site(exc)
     for k in KNOWN:
-        if all(site.get(a) == b for a, b in k.items()):
+        # keys the campaign cannot compute (flags derived from the input file, process signals) are not compared here: the input the
+        # campaign stops on is re-judged by the check's normal path, which computes them
+        kk = {a: b for a, b in k.items() if a in ("exc", "file", "func")}
+        if kk and all((site.get(a) in b) if isinstance(b, list) else (site.get(a) == b) for a, b in kk.items()):
             return True
     return False
 
